@@ -37,7 +37,7 @@ Qed.
 Lemma sum_dmul_err : forall l, Z.abs (P18 * sum_dmul l - sum_exact l) <= HALF * Z.of_nat (length l).
 Proof.
   induction l as [|[g s] l IH]; cbn [sum_dmul sum_exact fold_right length fst snd].
-  - cbn. lia.
+  - change (Z.of_nat 0) with 0. lia.
   - fold (sum_dmul l). fold (sum_exact l). pose proof (d_mul_err g s). rewrite Nat2Z.inj_succ. lia.
 Qed.
 
